@@ -126,6 +126,7 @@ func modelPgEncode(e *Exec, c *frame, fn *ssa.Function, a []Value) Value {
 		return null
 	}
 	e.noteWrite(recv) // memoised plans
+	e.encLog = append(e.encLog, sym.SignExt(a[2].(sym.Sc), 64))
 	fail := func(msg string) Value {
 		return Tuple{Slice{Len: i64zero, Cap: i64zero}, e.newErrorString("unable to encode: " + msg)}
 	}
